@@ -445,7 +445,7 @@ def truth_jacobian(net):
     return A, cols
 
 
-def is_determined(net, tol=1e-6):
+def is_determined(net, tol=2e-3):
     A, cols = truth_jacobian(net)
     if A.shape[1] == 0:
         return True
